@@ -35,5 +35,10 @@ func Verify(ctx context.Context, in io.Reader, key *dsig.PublicKey) error {
 	if err := env.Signatures[0].VerifyPayload(key, env); err != nil {
 		return wrapError(http.StatusUnprocessableEntity, err)
 	}
+	// A good signature is not enough, the headers that were signed must
+	// also match the envelope's current header and digest.
+	if err := env.Verify(key); err != nil {
+		return wrapError(http.StatusUnprocessableEntity, err)
+	}
 	return nil
 }
